@@ -95,7 +95,7 @@ func c18Class(f string) string {
 func init() {
 	fw.Register(&fw.Prop{
 		ID: "C18",
-		Rule: "every format string of length <= L over the symbols % s f v d - 0 3 x, times 12 argument lists, plus a width sweep across the 65536 limit; " +
+		Rule: "every format string of length <= L over the symbols % s f v d - 0 3 x, times 12 argument lists, plus a width sweep across the 65536 limit; printf lists read, effect, read of one scalar location (the printf programs of C09's copy-time family); " +
 			"a state is a directive-shape class of a format (e.g. %-ws%0wv); non-trivial = classes the model formats successfully with at least one argument list; each case compares exact stdout and outcome with the reference formatter",
 		Plan: func(t fw.Tier) int { return 82 },
 		Bound: func(t fw.Tier) string {
@@ -116,6 +116,8 @@ func init() {
 					}
 				}
 				c18Sweep(c)
+				// the arguments are rendered as they were when each was evaluated (programs shared with C09)
+				copyTimeRun(c, "printf")
 				for _, rev := range []bool{false, true} {
 					rev := rev
 					c.Do(func() any { return map[string]any{"stream": true, "rev": rev} }, func() *fw.Violation { return c18Stream(c, rev) })
@@ -153,6 +155,9 @@ func init() {
 			rec(0)
 		},
 		Replay: func(c *fw.Ctx, raw json.RawMessage) *fw.Violation {
+			if v, ok := copyTimeReplay(c, raw); ok {
+				return v
+			}
 			var pr struct {
 				Program string  `json:"program"`
 				Fmt     *string `json:"fmt"`
